@@ -85,7 +85,7 @@ func main() {
 	r.Set("distinct_nontrivial", r.Get("chain_distinct_results"))
 	r.Set("rule", "states = distinct execution results of the block space + schedule scenarios + token sets; transitions = block executions on real application replicas + permutation replays on real wrappedTries + explored schedules of the real verifyTxsOnProcess + map encodings; every one runs the repository's code and is compared with its siblings (differential) or with a plain sequential reference (schedules); non-trivial = distinct result digest of an accepted block")
 	r.Assume("replicas are restarts (node.NewNode recipe mirrored by minichain) on byte copies of one template node per prior state, storage mode and worker process; the templates of all processes are compared with each other")
-	r.Assume("system contracts are absent (minichain): candidates and validator updates are empty on every replica, WASM is not executed; the comparison of those fields is vacuous")
+	r.Assume("system contracts are absent (minichain), WASM is not executed. The third prior state holds ONE elected candidate (candidate-contract record and candidate list installed by a hook before the first block, then persisted by real block execution) whose score the per-block evidence raises; the election itself (calculateCandidates at multiples of VotePeriod = 1321, p2p connection manager) and validator-set changes through candidates are not executed")
 	r.Assume("crypto stand-in xcrypto_model for confidential transactions (real group arithmetic, ideal range proofs)")
 	r.Assume("the cooperative scheduler sees the sync/WaitGroup/goroutine operations of app/app.go and the mempool cache; unsynchronised accesses between them are not interleaved (no -race pass is part of this check)")
 	r.Assume("the balance-record journal (types.BlockBalanceRecordsInstance, RPC-served auxiliary data) is not among the results the property lists; its divergence is recorded as a note")
@@ -108,7 +108,7 @@ func runChain(r *vk.Run) {
 	}
 	a := agg{map[string]int{}, map[string]bool{}, map[string]int{}, map[string]int{}, map[string]int{}, map[string]string{}}
 	var order orderStats
-	execs, replicas, warm, twins, hits, dupsCompared := 0, 0, 0, 0, 0, 0
+	execs, replicas, warm, twins, hits, dupsCompared, awarded := 0, 0, 0, 0, 0, 0, 0
 	var slow int64
 	var notExec, harness []string
 	longDone, longDeferred := map[string]bool{}, map[string]string{}
@@ -162,6 +162,9 @@ func runChain(r *vk.Run) {
 			}
 		} else {
 			a.first[key] = res.Digest
+		}
+		if res.CandidateAwarded {
+			awarded++
 		}
 		execs += res.Executions
 		replicas += res.Replicas
@@ -233,6 +236,7 @@ func runChain(r *vk.Run) {
 	r.Set("chain_tx_kinds", a.kinds)
 	r.Set("chain_results_digest", hashOf(all))
 	r.Set("chain_run_to_run_pairs", dupsCompared)
+	r.Set("candidate_state_blocks_that_raised_the_score", awarded)
 	r.Set("cache_warm_txs_in_mempool", warm)
 	r.Set("cache_senders_taken_from_cache", hits)
 	r.Set("cache_twins_in_cache", twins)
@@ -278,6 +282,9 @@ func runChain(r *vk.Run) {
 		}
 		if order.Permutations == 0 || order.Deletes == 0 || order.StorageTries == 0 {
 			vk.Fatalf("order: vacuous: %+v", order)
+		}
+		if awarded == 0 {
+			vk.Fatalf("candidates: vacuous: no block of the candidate state raised the candidate's score")
 		}
 		if hits == 0 || twins == 0 {
 			vk.Fatalf("cache: vacuous: %d cache hits, %d twins", hits, twins)
